@@ -561,6 +561,7 @@ func TestPollerLA(t *testing.T) {
 		// the node's own consensus finalizes the next certificates of the honest chain
 		advance := func(deltas []bool, log bool) []string {
 			encs := []string{}
+			putErr := false
 			for _, d := range deltas {
 				i := pendingOf(cs)
 				var n *laNode
@@ -570,12 +571,15 @@ func TestPollerLA(t *testing.T) {
 					n = w.extend(d)
 				}
 				if err := cs.Put(ctx, n.cert); err != nil {
-					panic(err)
+					// only possible when the store already holds something that is not the honest chain
+					// (recorded, judged by TLC; the history goes on with what was stored)
+					putErr = true
+					break
 				}
 				encs = append(encs, h(n.enc))
 			}
 			if log && len(deltas) > 0 {
-				rec.emit(map[string]any{"ev": "LocalAdvance", "encs": encs, "deltas": deltas, "own1": pendingOf(cs), "next": poller.NextInstance})
+				rec.emit(map[string]any{"ev": "LocalAdvance", "encs": encs, "deltas": deltas, "own1": pendingOf(cs), "next": poller.NextInstance, "err": putErr})
 				advances++
 			}
 			return encs
